@@ -7,9 +7,11 @@ acyclicity) and the lifts of the Bool table checkers to their Prop statements.  
 namespace GlueVerif.C12.Lemmas
 open GlueVerif.C12
 
+variable {α : Type} [DecidableEq α]
+
 /-! ## lookup -/
 
-theorem plookup_some_mem {t : Patches} {k v : String} (h : plookup t k = some v) : (k, v) ∈ t := by
+theorem plookup_some_mem {t : Patches α} {k v : α} (h : plookup t k = some v) : (k, v) ∈ t := by
   induction t with
   | nil => simp [plookup] at h
   | cons p r ih =>
@@ -22,7 +24,7 @@ theorem plookup_some_mem {t : Patches} {k v : String} (h : plookup t k = some v)
       exact List.mem_cons_self
     · exact List.mem_cons_of_mem _ (ih h)
 
-theorem plookup_none_not_key {t : Patches} {k : String} (h : plookup t k = none) :
+theorem plookup_none_not_key {t : Patches α} {k : α} (h : plookup t k = none) :
     ∀ p ∈ t, p.1 ≠ k := by
   induction t with
   | nil => intro p hp; cases hp
@@ -39,7 +41,7 @@ theorem plookup_none_not_key {t : Patches} {k : String} (h : plookup t k = none)
 
 /-! ## bounded chase vs. loop semantics -/
 
-theorem chase_sound {t : Patches} : ∀ (f : Nat) (n r : String), chase t f n = some r → Loop t n r := by
+theorem chase_sound {t : Patches α} : ∀ (f : Nat) (n r : α), chase t f n = some r → Loop t n r := by
   intro f
   induction f with
   | zero =>
@@ -60,7 +62,7 @@ theorem chase_sound {t : Patches} : ∀ (f : Nat) (n r : String), chase t f n = 
     · rename_i m hm
       exact Loop.step hm (ih m r h)
 
-theorem chase_mono {t : Patches} : ∀ (f : Nat) (n r : String),
+theorem chase_mono {t : Patches α} : ∀ (f : Nat) (n r : α),
     chase t f n = some r → chase t (f + 1) n = some r := by
   intro f
   induction f with
@@ -87,18 +89,18 @@ theorem chase_mono {t : Patches} : ∀ (f : Nat) (n r : String),
       simp only [hm]
       exact this
 
-theorem chase_mono_le {t : Patches} {f f' : Nat} (hle : f ≤ f') {n r : String}
+theorem chase_mono_le {t : Patches α} {f f' : Nat} (hle : f ≤ f') {n r : α}
     (h : chase t f n = some r) : chase t f' n = some r := by
   induction hle with
   | refl => exact h
   | step _ ih => exact chase_mono _ _ _ ih
 
-theorem loop_not_key {t : Patches} {n r : String} (h : Loop t n r) : plookup t r = none := by
+theorem loop_not_key {t : Patches α} {n r : α} (h : Loop t n r) : plookup t r = none := by
   induction h with
   | done hn => exact hn
   | step _ _ ih => exact ih
 
-theorem loop_det {t : Patches} {n r r' : String} (h : Loop t n r) (h' : Loop t n r') : r = r' := by
+theorem loop_det {t : Patches α} {n r r' : α} (h : Loop t n r) (h' : Loop t n r') : r = r' := by
   induction h with
   | done hn =>
     cases h' with
@@ -112,7 +114,7 @@ theorem loop_det {t : Patches} {n r r' : String} (h : Loop t n r) (h' : Loop t n
       cases hm'
       exact ih hl'
 
-theorem loop_chase {t : Patches} {n r : String} (h : Loop t n r) : ∃ f, chase t f n = some r := by
+theorem loop_chase {t : Patches α} {n r : α} (h : Loop t n r) : ∃ f, chase t f n = some r := by
   induction h with
   | done hn => exact ⟨0, by unfold chase; simp [hn]⟩
   | step hm _ ih =>
@@ -122,7 +124,7 @@ theorem loop_chase {t : Patches} {n r : String} (h : Loop t n r) : ∃ f, chase 
 /-- **Generic termination lemma.**  If the checker accepts the table, the chase started at *any*
 name (key or not, in the table or not) ends within `|table|` redirections, the unbounded Python
 loop terminates with the same result, and that result is not a key. -/
-theorem chaseAll_terminates {t : Patches} (h : chaseAll t = true) (n : String) :
+theorem chaseAll_terminates {t : Patches α} (h : chaseAll t = true) (n : α) :
     ∃ r, chase t t.length n = some r ∧ Loop t n r ∧ plookup t r = none := by
   have key : ∃ r, chase t t.length n = some r := by
     cases hn : plookup t n with
@@ -142,13 +144,13 @@ theorem chaseAll_terminates {t : Patches} (h : chaseAll t = true) (n : String) :
 /-! ## acyclicity -/
 
 /-- Follow exactly `k` redirections (`none` if a non-key is reached earlier). -/
-def stepN (t : Patches) : Nat → String → Option String
+def stepN (t : Patches α) : Nat → α → Option α
   | 0, n => some n
   | k + 1, n => match plookup t n with
     | none => none
     | some m => stepN t k m
 
-theorem stepN_succ_right {t : Patches} : ∀ (k : Nat) (n : String),
+theorem stepN_succ_right {t : Patches α} : ∀ (k : Nat) (n : α),
     stepN t (k + 1) n = (stepN t k n).bind (plookup t) := by
   intro k
   induction k with
@@ -167,7 +169,7 @@ theorem stepN_succ_right {t : Patches} : ∀ (k : Nat) (n : String),
       simp [hn]
 
 /-- A name from which the loop terminates is not on a cycle. -/
-theorem loop_no_cycle {t : Patches} {n r : String} (h : Loop t n r) :
+theorem loop_no_cycle {t : Patches α} {n r : α} (h : Loop t n r) :
     ∀ k, 0 < k → stepN t k n ≠ some n := by
   induction h with
   | done hn =>
@@ -191,14 +193,14 @@ theorem loop_no_cycle {t : Patches} {n r : String} (h : Loop t n r) :
         simpa using hm
       exact ih (k + 1) (Nat.succ_pos k) h2
 
-theorem chaseAll_acyclic {t : Patches} (h : chaseAll t = true) (n : String) :
+theorem chaseAll_acyclic {t : Patches α} (h : chaseAll t = true) (n : α) :
     ∀ k, 0 < k → stepN t k n ≠ some n := by
   obtain ⟨_, _, hl, _⟩ := chaseAll_terminates h n
   exact loop_no_cycle hl
 
 /-! ## lifts of the table checkers -/
 
-theorem keysNodup_spec : ∀ {ks : List String}, keysNodup ks = true → ks.Nodup := by
+theorem keysNodup_spec : ∀ {ks : List α}, keysNodup ks = true → ks.Nodup := by
   intro ks
   induction ks with
   | nil => intro _; exact List.nodup_nil
@@ -208,9 +210,9 @@ theorem keysNodup_spec : ∀ {ks : List String}, keysNodup ks = true → ks.Nodu
       decide_eq_false_iff_not] at h
     exact List.nodup_cons.mpr ⟨h.1, ih h.2⟩
 
-theorem noCaptureExcept_spec {t : Patches} {cl : ClassTable} {exc : List String}
-    (h : noCaptureExcept t cl exc = true) :
-    ∀ p ∈ t, isLiveWritten cl p.1 = true → p.1 ∈ exc := by
+theorem noCaptureExcept_spec {t : Patches α} {cl : ClassTable α} {nameOf : α → String}
+    {exc : List String} (h : noCaptureExcept t cl nameOf exc = true) :
+    ∀ p ∈ t, isLiveWritten cl p.1 = true → nameOf p.1 ∈ exc := by
   intro p hp hw
   have hmem : p.1 ∈ capturedKeys t cl := by
     unfold capturedKeys
@@ -218,7 +220,7 @@ theorem noCaptureExcept_spec {t : Patches} {cl : ClassTable} {exc : List String}
   have := (List.all_eq_true.mp h) p.1 hmem
   simpa using this
 
-theorem blookup_some_mem {t : List (String × Bool)} {k : String} {v : Bool}
+theorem blookup_some_mem {t : List (α × Bool)} {k : α} {v : Bool}
     (h : blookup t k = some v) : (k, v) ∈ t := by
   induction t with
   | nil => simp [blookup] at h
@@ -232,15 +234,15 @@ theorem blookup_some_mem {t : List (String × Bool)} {k : String} {v : Bool}
       exact List.mem_cons_self
     · exact List.mem_cons_of_mem _ (ih h)
 
-theorem targetsImportable_spec {t : Patches} {imp : List (String × Bool)}
-    (h : targetsImportable t imp = true) :
-    ∀ p ∈ t, ∀ r, chase t t.length p.1 = some r → inPackage r = true → (r, true) ∈ imp := by
+theorem targetsImportable_spec {t : Patches α} {inPkg : α → Bool} {imp : List (α × Bool)}
+    (h : targetsImportable t inPkg imp = true) :
+    ∀ p ∈ t, ∀ r, chase t t.length p.1 = some r → inPkg r = true → (r, true) ∈ imp := by
   intro p hp r hr hin
   have := (List.all_eq_true.mp h) p hp
   simp only [hr, hin, Bool.not_true, Bool.false_or, beq_iff_eq] at this
   exact blookup_some_mem this
 
-theorem rlookup_some_mem {t : Registry} {k : String} {v : List Int}
+theorem rlookup_some_mem {t : Registry α} {k : α} {v : List Int}
     (h : rlookup t k = some v) : (k, v) ∈ t := by
   induction t with
   | nil => simp [rlookup] at h
@@ -260,15 +262,16 @@ theorem consecutive_spec {vs : List Int} (h : consecutive vs = true) :
   refine ⟨vs.length, ?_, h.1⟩
   exact List.length_pos_iff.mpr h.2
 
-theorem registryConsecutive_spec {r : Registry} (h : registryConsecutive r = true) :
+omit [DecidableEq α] in
+theorem registryConsecutive_spec {r : Registry α} (h : registryConsecutive r = true) :
     ∀ e ∈ r, ∃ n, 0 < n ∧ e.2 = oneTo n := by
   intro e he
   exact consecutive_spec ((List.all_eq_true.mp h) e he)
 
-theorem versionsMatch_spec {sav lod : Registry} {only : List String}
+theorem versionsMatch_spec {sav lod : Registry α} {only : α → Bool}
     (h : versionsMatch sav lod only = true) :
     (∀ e ∈ lod, rlookup sav e.1 = some e.2) ∧
-    (∀ e ∈ sav, e.1 ∉ only → rlookup lod e.1 = some e.2) := by
+    (∀ e ∈ sav, only e.1 = false → rlookup lod e.1 = some e.2) := by
   simp only [versionsMatch, Bool.and_eq_true] at h
   refine ⟨?_, ?_⟩
   · intro e he
@@ -276,15 +279,15 @@ theorem versionsMatch_spec {sav lod : Registry} {only : List String}
     simpa using this
   · intro e he hno
     have := (List.all_eq_true.mp h.2) e he
-    simp only [Bool.or_eq_true, List.contains_eq_mem, decide_eq_true_eq, beq_iff_eq] at this
+    simp only [Bool.or_eq_true, beq_iff_eq] at this
     cases this with
-    | inl h1 => exact absurd h1 hno
+    | inl h1 => rw [hno] at h1; cases h1
     | inr h2 => exact h2
 
-theorem newestIsLast_spec {sav lod : Registry} {only : List String}
+theorem newestIsLast_spec {sav lod : Registry α} {only : α → Bool}
     (h : newestIsLast sav lod only = true) :
     ∀ e ∈ sav, newestVersion e.2 = some (Int.ofNat e.2.length) ∧
-      (e.1 ∉ only → ∃ vs, rlookup lod e.1 = some vs ∧ Int.ofNat e.2.length ∈ vs) := by
+      (only e.1 = false → ∃ vs, rlookup lod e.1 = some vs ∧ Int.ofNat e.2.length ∈ vs) := by
   intro e he
   have := (List.all_eq_true.mp h) e he
   simp only [Bool.and_eq_true, beq_iff_eq, Bool.or_eq_true, List.contains_eq_mem,
@@ -292,7 +295,7 @@ theorem newestIsLast_spec {sav lod : Registry} {only : List String}
   refine ⟨this.1, ?_⟩
   intro hno
   cases this.2 with
-  | inl h1 => exact absurd h1 hno
+  | inl h1 => rw [hno] at h1; cases h1
   | inr h2 =>
     cases hl : rlookup lod e.1 with
     | none => rw [hl] at h2; simp at h2
